@@ -276,6 +276,11 @@ func (x *Exprer) compute(v ssa.Value) *Expr {
 					if e := x.reachingField(al, fa.Field, v); e != nil {
 						return e
 					}
+					if w := x.reachingOfWholeOnly(al, v); w != nil {
+						if st := derefStruct(al.Type()); st != nil {
+							return x.mkField(st.Field(fa.Field).Name(), v, x.E(w.Val))
+						}
+					}
 					if e := x.fieldOfAlloc(al, fa.Field); e != nil {
 						return e
 					}
@@ -284,6 +289,9 @@ func (x *Exprer) compute(v ssa.Value) *Expr {
 			if al, ok := v.X.(*ssa.Alloc); ok {
 				if e := x.reachingWhole(al, v); e != nil {
 					return e
+				}
+				if w := x.reachingOfWholeOnly(al, v); w != nil {
+					return x.E(w.Val)
 				}
 			}
 			return x.E(v.X)
@@ -1091,6 +1099,10 @@ func canonCall(c *Expr) *Expr {
 		(c.Args[0].Name == "go-ethereum/common.(Address).String" || c.Args[0].Name == "go-ethereum/common.(Address).Hex") {
 		return c.Args[0].Args[0] // parsing the printed form of an address gives the address back
 	}
+	// crypto.Keccak256Hash(xs...).Bytes() are the 32 bytes crypto.Keccak256(xs...) returns
+	if n == "go-ethereum/common.(Hash).Bytes" && len(c.Args) == 1 && c.Args[0].Op == "call" && c.Args[0].Name == "go-ethereum/crypto.Keccak256Hash" {
+		return &Expr{Op: "call", Name: "go-ethereum/crypto.Keccak256", Args: c.Args[0].Args, Val: c.Val}
+	}
 	switch {
 	case n == "bytes.Equal" && two:
 		a0, a1 := c.Args[0], c.Args[1]
@@ -1309,10 +1321,36 @@ func precedes(a, b ssa.Instruction) bool {
 	return domOf(a.Parent()).dominates(a.Block(), b.Block())
 }
 
-// latestBefore: all stores precede the read; returns the one that all others precede (nil if not totally ordered).
+// mayReach: some control-flow path leads from a to b.
+func mayReach(a, b ssa.Instruction) bool {
+	ab, bb := a.Block(), b.Block()
+	seen := map[*ssa.BasicBlock]bool{}
+	st := append([]*ssa.BasicBlock(nil), ab.Succs...)
+	if ab == bb && instrIndex(a) < instrIndex(b) {
+		return true
+	}
+	for len(st) > 0 {
+		x := st[len(st)-1]
+		st = st[:len(st)-1]
+		if seen[x] {
+			continue
+		}
+		seen[x] = true
+		if x == bb {
+			return true
+		}
+		st = append(st, x.Succs...)
+	}
+	return false
+}
+
+// latestBefore: all stores that can reach the read precede it; returns the one that all others precede (nil if not totally ordered).
 func latestBefore(stores []*ssa.Store, read ssa.Instruction) *ssa.Store {
 	var last *ssa.Store
 	for _, s := range stores {
+		if !mayReach(s, read) {
+			continue // a store on a path that never gets to the read (e.g. the zero value written before an error return)
+		}
 		if !precedes(s, read) {
 			return nil
 		}
@@ -1342,6 +1380,50 @@ func (x *Exprer) reachingField(a *ssa.Alloc, field int, read *ssa.UnOp) *Expr {
 	return x.E(last.Val)
 }
 
+// reachingOfWholeOnly: a struct variable that is only ever assigned as a whole, more than once (the result variable an
+// inlined helper fills on each of its return paths): the one assignment that reaches this read, if there is exactly one
+// and it dominates the read.
+func (x *Exprer) reachingOfWholeOnly(a *ssa.Alloc, read *ssa.UnOp) *ssa.Store {
+	refs := a.Referrers()
+	if refs == nil || derefStruct(a.Type()) == nil {
+		return nil
+	}
+	var whole []*ssa.Store
+	for _, r := range *refs {
+		switch r := r.(type) {
+		case *ssa.Store:
+			if r.Addr != ssa.Value(a) {
+				return nil
+			}
+			whole = append(whole, r)
+		case *ssa.FieldAddr:
+			if rr := r.Referrers(); rr != nil {
+				for _, u := range *rr {
+					if _, isLoad := u.(*ssa.UnOp); !isLoad {
+						return nil
+					}
+				}
+			}
+		case *ssa.UnOp:
+		default:
+			return nil
+		}
+	}
+	if len(whole) < 2 {
+		return nil
+	}
+	var reaching []*ssa.Store
+	for _, s := range whole {
+		if mayReach(s, read) {
+			reaching = append(reaching, s)
+		}
+	}
+	if len(reaching) != 1 || !precedes(reaching[0], read) {
+		return nil
+	}
+	return reaching[0]
+}
+
 func (x *Exprer) reachingWhole(a *ssa.Alloc, read *ssa.UnOp) *Expr {
 	cs := x.storesOf(a)
 	if !cs.ok {
@@ -1364,6 +1446,9 @@ func (x *Exprer) reachingWhole(a *ssa.Alloc, read *ssa.UnOp) *Expr {
 	for _, f := range idx {
 		var after []*ssa.Store
 		for _, s := range cs.fields[f] {
+			if !mayReach(s, read) {
+				continue
+			}
 			if precedes(s, read) && precedes(w, s) {
 				after = append(after, s)
 			} else if !precedes(s, w) && !precedes(read, s) {
